@@ -109,6 +109,9 @@ class Facade:
             self.py.random()
             self.np.random_sample()
             self.bug.random()
+            if self._saved is not None:
+                self._saved[0]["random"]()
+                self._saved[1]["random_sample"]()
 
     # ------------------------------------------------------- python random.*
     def py_seed(self, s=None, *a, **k):
@@ -336,6 +339,12 @@ class Facade:
         self._saved = ({n: getattr(_random, n) for n in _PY_NAMES}, {n: getattr(np.random, n) for n in _NP_NAMES},
                        np.random.default_rng)
         self._real_default_rng = np.random.default_rng
+        # code that bypasses the front-ends (sklearn's check_random_state(None), `from random import ...`) reaches the real
+        # global generators: make them a function of the run seed too, so that such a run is repeatable yet differs from a
+        # run with another facade seed
+        self._saved_states = (_random.getstate(), np.random.get_state())
+        self._saved[0]["seed"](derive(self.seed0, "real-global-py"))
+        self._saved[1]["seed"](derive(self.seed0, "real-global-np") & 0xFFFFFFFF)
         for n in _PY_NAMES:
             setattr(_random, n, getattr(self, "py_" + n))
         for n in _NP_NAMES:
@@ -351,6 +360,8 @@ class Facade:
         for n, f in npn.items():
             setattr(np.random, n, f)
         np.random.default_rng = drng
+        _random.setstate(self._saved_states[0])
+        np.random.set_state(self._saved_states[1])
         self._saved = None
 
     def __enter__(self):
